@@ -256,6 +256,56 @@ def _k_worker(args):
   return stats, dis, sample
 
 
+def _live_worker(args):
+  """Incremental stream: the property speaks about the graph as it is *now*, however it was built.  A long-lived
+  program is grown by random mutations with queries in between (acyclic histories only: there `solve ↔ Expl` is a
+  theorem and answers do not depend on the history); every answer of the live program must equal the model's cold
+  answer on the graph at that moment."""
+  seed_, n, length = args
+  cfg = common.load_pytype()
+  drv = common.Driver("drv_c07")
+  rng = random.Random(seed_)
+  runs = []
+  tries = 0
+  while len(runs) < n and tries < 4 * n:
+    tries += 1
+    real = tg.Real(cfg)
+    prof = {"max_nodes": rng.choice([4, 6, 10, 20]), "max_vars": rng.choice([2, 4, 6]),
+            "max_bindings": rng.choice([5, 8, 12, 16]), "cyclic": False,
+            "conds": rng.random() < 0.4, "labels": rng.choice([2, 3, 5])}
+    ops, outs = [], []
+    L = rng.randrange(15, length + 1)
+    while len(ops) < L:
+      op = tg.gen_query(rng, real) if rng.random() < 0.45 else None
+      if op is not None and op[1] == "stats":     # solver bookkeeping is C08's subject, not an answer about the graph
+        op = None
+      if op is None:
+        op = tg.gen_mutation(rng, real, prof)
+      r = real.apply(op)
+      ops.append(op)
+      if r is not None:
+        outs.append(r)
+    if tg.history_shape(ops).cyclic():
+      continue
+    ranks = real.addr_ranks() if real.multi_source() else None
+    runs.append((ops, outs, ranks))
+  lines = []
+  for ops, outs, ranks in runs:
+    lines += tg.driver_lines(ops, ranks, cold=True)
+  mo = drv.batch(lines)
+  dis, pos, nq = [], 0, 0
+  for ops, outs, ranks in runs:
+    m = mo[pos:pos + len(outs)]
+    pos += len(outs)
+    nq += len(outs)
+    if m != outs:
+      qidx = [i for i, o in enumerate(ops) if o[0] == "query"]
+      j = next(i for i in range(len(outs)) if i >= len(m) or m[i] != outs[i])
+      dis.append({"ops": [tg.op_text(o) for o in ops[:qidx[j] + 1]], "query": tg.op_text(ops[qidx[j]]),
+                  "real": outs[j], "model": m[j] if j < len(m) else None, "ranks": ranks, "live": True})
+  return {"histories": len(runs), "queries": nq}, dis
+
+
 def _merge(total, s):
   for k, v in s.items():
     if isinstance(v, dict):
@@ -293,6 +343,13 @@ def correspond(res, rng, tier):
     dis += d
     if sample and len(samples) < 40:
       samples.append(sample)
+  live = {"histories": 0, "queries": 0}
+  ltasks = [(rng.randrange(1 << 30), 12 if tier == "quick" else 60, 60) for _ in range(WORKERS)]
+  for st, d in tg.parallel(_live_worker, ltasks, WORKERS, timeout_s=(600 if tier == "quick" else 3000)):
+    live["histories"] += st["histories"]
+    live["queries"] += st["queries"]
+    dis += d
+  total["queries"] = total.get("queries", 0) + live["queries"]
   res.cov["evaluations"] = total.get("queries", 0)
   res.cov["distinct_nontrivial"] = total.get("nontrivial", 0)
   res.cov["exhaustive"] = False
@@ -305,9 +362,10 @@ def correspond(res, rng, tier):
       "<=2 source sets, optional condition), all nodes x all binding subsets of size <=3 (both orders for pairs); "
       "(c) random graphs up to 40 nodes with cycles, conditions and the paste/assign helpers, sampled queries. "
       "distinct_nontrivial counts graphs (each generated once) on which the real HasCombination/IsVisible answers "
-      "include both True and False.")
+      "include both True and False.  (d) incremental stream: acyclic histories of mutations with queries in between on "
+      "ONE long-lived program; every live answer must equal the model's cold answer on the graph at that moment.")
   res.cov["distribution"] = {
-      "corpus_graphs": len(corpus), "micro_graphs_exhaustive": len(micro), "tiny_graphs_sampled": n_tiny, "random_graphs": n_rand,
+      "live_histories": live["histories"], "live_queries": live["queries"], "corpus_graphs": len(corpus), "micro_graphs_exhaustive": len(micro), "tiny_graphs_sampled": n_tiny, "random_graphs": n_rand,
       "graphs": total.get("graphs", 0), "cyclic_graphs": total.get("cyclic", 0),
       "conditioned_graphs": total.get("conditioned", 0),
       "graphs_with_multi_source_origins": total.get("multi_source", 0),
